@@ -696,6 +696,9 @@ def r26_append_order(ctx, rule='R26'):
                     if isinstance(t, FuncInfo) and t.cls is not None and t.cls in c.mro and t is not pd \
                             and t.name != 'process_datapackage':
                         targets.append(t)
+                    elif isinstance(t, FuncInfo) and t.cls is None and t.parent is None and t.module is pd.module and \
+                            not isinstance(t.node, ast.Lambda) and t not in targets:
+                        targets.append(t)       # a module-level helper of the same module that the package phase calls
         for f in targets:
             for x in own_nodes(f.node):
                 if isinstance(x, ast.Call) and isinstance(x.func, ast.Attribute) and x.func.attr in ('append', 'extend') \
